@@ -14,12 +14,17 @@ import (
 	"io"
 	"net"
 	"net/http"
+	"os"
+	"path/filepath"
+	"reflect"
 	"strings"
 	"sync/atomic"
 	"time"
 
+	"github.com/fatedier/frp/pkg/config"
 	v1 "github.com/fatedier/frp/pkg/config/v1"
 	"github.com/fatedier/frp/pkg/msg"
+	"github.com/fatedier/frp/pkg/util/verifhook"
 	"verifharness/hx"
 )
 
@@ -141,6 +146,7 @@ func sysGroups(cfg *hx.RunCfg) error {
 			}
 		}
 	}
+	fails = append(fails, legacyIniGroups(dist)...)
 	cfg.St["cases"] = len(lines)
 	cfg.St["distinct_nontrivial"] = len(lines)
 	cfg.St["samples"] = samples
@@ -418,6 +424,88 @@ func sysScenario(s *hx.Server, kind, rep, vhostPort, muxPort int, dist map[strin
 	}
 	time.Sleep(300 * time.Millisecond)
 
+	if kind == 1 {
+		// two sessions announce an http group proxy with the SAME name at once: the first has joined the
+		// group (Run done, held before pxyManager.Add), the second is refused by the group ("repeated");
+		// its roll-back must not touch the first one's membership: the request still reaches the first
+		gd := gnum + 50
+		groupD := fmt.Sprintf("sys-http-dup-g%d", gnum)
+		domainD := fmt.Sprintf("dup%d.example.com", gnum)
+		name := fmt.Sprintf("sys-http-%d-dup", rep)
+		parD := []int{gd, 0, 0, 0, 0}
+		hold, arrived := make(chan struct{}), make(chan struct{}, 1)
+		var once int32
+		verifhook.Install(func(point, key string) {
+			if point == "ctl.regproxy.after_run" && key == name && atomic.CompareAndSwapInt32(&once, 0, 1) {
+				arrived <- struct{}{}
+				<-hold
+			}
+		})
+		mk := func(label string) (*hx.Client, error) {
+			b, err := startHTTPBackend(label)
+			if err != nil {
+				return nil, err
+			}
+			base := v1.ProxyBaseConfig{Name: name, Type: "http", LoadBalancer: v1.LoadBalancerConfig{Group: groupD, GroupKey: kname(1)},
+				ProxyBackend: v1.ProxyBackend{LocalIP: sysAddr, LocalPort: b.l.Addr().(*net.TCPAddr).Port}}
+			return s.StartClient([]v1.ProxyConfigurer{&v1.HTTPProxyConfig{ProxyBaseConfig: base,
+				DomainConfig: v1.DomainConfig{CustomDomains: []string{domainD}}}}, nil, nil)
+		}
+		cA, err := mk("M20;")
+		if err != nil {
+			verifhook.Install(nil)
+			return "", nil, err
+		}
+		select {
+		case <-arrived:
+		case <-time.After(5 * time.Second):
+			verifhook.Install(nil)
+			close(hold)
+			return "", nil, fmt.Errorf("duplicate-name scenario: first registration did not reach the gate")
+		}
+		cB, err := mk("M21;")
+		if err != nil {
+			verifhook.Install(nil)
+			close(hold)
+			return "", nil, err
+		}
+		okB, etxt := waitProxy(cB, name, 5*time.Second)
+		cB.Close()
+		close(hold)
+		verifhook.Install(nil)
+		okA, _ := waitProxy(cA, name, 5*time.Second)
+		if okB || etxt == "timeout" || !okA {
+			cA.Close()
+			return "", nil, fmt.Errorf("duplicate-name scenario: first running=%v, second running=%v (%s)", okA, okB, etxt)
+		}
+		reqs = append(reqs, Req{Op: "join", M: 20, Group: gd, Key: 1, Par: parD, Mux: true, OS: true, Lis: true})
+		thr = append(thr, [2]int{sMember, 0})
+		reqs = append(reqs, Req{Op: "join", M: 20, Group: gd, Key: 1, Par: parD, Mux: true, OS: true, Lis: true})
+		thr = append(thr, [2]int{sRefused, errCode(etxt)})
+		time.Sleep(100 * time.Millisecond)
+		req, _ := http.NewRequest("GET", fmt.Sprintf("http://%s:%d/", sysAddr, vhostPort), nil)
+		req.Host = domainD
+		cl := &http.Client{Timeout: 3 * time.Second, Transport: &http.Transport{DisableKeepAlives: true}}
+		out := [2]int{sCStranded, 0}
+		if resp, err := cl.Do(req); err == nil {
+			if resp.StatusCode == 404 {
+				out = [2]int{sCRefused, 0}
+			} else if m := readLabel(bufio.NewReader(resp.Body)); m >= 0 {
+				out = [2]int{sCTo, m}
+			}
+			resp.Body.Close()
+		}
+		if out[0] != sCTo {
+			fails = append(fails, map[string]any{"key": "C13:sys:http:refused-duplicate-removed-incumbent",
+				"what": "whole frps: after a same-name duplicate of an http group proxy was refused, a request to the group is no longer answered although the first proxy is running", "case": groupD})
+		}
+		reqs = append(reqs, Req{Op: "conn", R: []int{gd, 0, 0}})
+		thr = append(thr, out)
+		dist["sys-duplicate-name-refused:"+kn]++
+		cA.Close()
+		time.Sleep(200 * time.Millisecond)
+	}
+
 	rs := make([]string, len(reqs))
 	for i, r := range reqs {
 		rs[i] = reqCoq(r)
@@ -432,4 +520,116 @@ func sysScenario(s *hx.Server, kind, rep, vhostPort, muxPort int, dist map[strin
 	}
 	txt := fmt.Sprintf("CSys %d 1 65535 %s %s%%nat %s", kind, hx.List(rs), hx.List(sc), hx.List(ps))
 	return txt, fails, nil
+}
+
+// A legacy INI client configuration and the equivalent TOML one, through the real loader: everything a
+// group join depends on (group, key, port / domains / locations / route user / credentials / multiplexer)
+// must arrive the same.
+func legacyIniGroups(dist map[string]int) []map[string]any {
+	ini := `[common]
+server_addr = 127.0.13.3
+server_port = 7000
+
+[t1]
+type = tcp
+local_port = 8001
+remote_port = 21390
+group = g-tcp
+group_key = k-tcp
+
+[h1]
+type = http
+local_port = 8002
+custom_domains = a.example.com,b.example.com
+locations = /x,/y
+route_by_http_user = ru
+http_user = hu
+http_pwd = hp
+group = g-http
+group_key = k-http
+
+[m1]
+type = tcpmux
+multiplexer = httpconnect
+local_port = 8003
+custom_domains = m.example.com
+route_by_http_user = mu
+http_user = mhu
+http_pwd = mhp
+group = g-mux
+group_key = k-mux
+`
+	toml := `serverAddr = "127.0.13.3"
+serverPort = 7000
+
+[[proxies]]
+name = "t1"
+type = "tcp"
+localPort = 8001
+remotePort = 21390
+loadBalancer.group = "g-tcp"
+loadBalancer.groupKey = "k-tcp"
+
+[[proxies]]
+name = "h1"
+type = "http"
+localPort = 8002
+customDomains = ["a.example.com", "b.example.com"]
+locations = ["/x", "/y"]
+routeByHTTPUser = "ru"
+httpUser = "hu"
+httpPassword = "hp"
+loadBalancer.group = "g-http"
+loadBalancer.groupKey = "k-http"
+
+[[proxies]]
+name = "m1"
+type = "tcpmux"
+multiplexer = "httpconnect"
+localPort = 8003
+customDomains = ["m.example.com"]
+routeByHTTPUser = "mu"
+httpUser = "mhu"
+httpPassword = "mhp"
+loadBalancer.group = "g-mux"
+loadBalancer.groupKey = "k-mux"
+`
+	dir, err := os.MkdirTemp("", "c13ini")
+	if err != nil {
+		return nil
+	}
+	defer os.RemoveAll(dir)
+	load := func(name, content string) map[string][]any {
+		p := filepath.Join(dir, name)
+		if os.WriteFile(p, []byte(content), 0o644) != nil {
+			return nil
+		}
+		_, pxys, _, _, err := config.LoadClientConfig(p, false)
+		if err != nil {
+			return map[string][]any{"load-error": {err.Error()}}
+		}
+		out := map[string][]any{}
+		for _, pc := range pxys {
+			b := pc.GetBaseConfig()
+			v := []any{b.Type, b.LoadBalancer.Group, b.LoadBalancer.GroupKey}
+			switch x := pc.(type) {
+			case *v1.TCPProxyConfig:
+				v = append(v, x.RemotePort)
+			case *v1.HTTPProxyConfig:
+				v = append(v, x.CustomDomains, x.Locations, x.RouteByHTTPUser, x.HTTPUser, x.HTTPPassword)
+			case *v1.TCPMuxProxyConfig:
+				v = append(v, x.CustomDomains, x.RouteByHTTPUser, x.HTTPUser, x.HTTPPassword, x.Multiplexer)
+			}
+			out[b.Name] = v
+		}
+		return out
+	}
+	a, b := load("frpc.ini", ini), load("frpc.toml", toml)
+	dist["legacy-ini-group-proxies-compared"] = len(b)
+	if len(b) == 3 && reflect.DeepEqual(a, b) {
+		return nil
+	}
+	return []map[string]any{{"key": "C13:legacy-ini:group-join-parameters-differ",
+		"what": fmt.Sprintf("a legacy INI configuration and the equivalent TOML one give group proxies different join parameters: ini %v toml %v", a, b),
+		"case": "legacyIniGroups"}}
 }
